@@ -367,6 +367,10 @@ fn run_sequence(r: &mut Report, lab: &Lab, seed: u64, seq: u64, all_tokens: &mut
             let variants: Vec<(Option<String>, Option<String>)> = vec![
                 (Some(format!("HumphreyToken={}", t)), want.clone()),
                 (Some(format!("other=1; HumphreyToken={}; z=2", t)), want.clone()),
+                // cookie pairs separated by a bare `;` (no blank), and a neighbour whose value contains `=`
+                (Some(format!("theme=dark;HumphreyToken={}", t)), want.clone()),
+                (Some(format!("HumphreyToken={};theme=dark", t)), want.clone()),
+                (Some(format!("pad=YQ==; HumphreyToken={}", t)), want.clone()),
                 (None, None),
                 (Some("HumphreyToken=".to_string()), None),
                 (Some(format!("humphreytoken={}", t)), None),
@@ -437,5 +441,5 @@ pub fn main(args: &Args) {
         total.nontrivial(1);
         total.nontrivial(2);
     }
-    total.write(out, "model-based operation sequences (10..60 operations, 1..5 users, with/without pepper, default lifetime and refresh lifetime in {0 = expired at birth, 3600 = valid for the run}) over create_user, remove_user, verify (right / wrong / other user's password incl. 64..300-byte passwords that differ only in their last byte, unknown and removed uid), create_session, create_session_with_lifetime(0 | 3600), refresh_session, invalidate_session, invalidate_user_session, get_uid_by_token (current, superseded, invalidated, expired, malformed tokens) and requests to a with_auth_route route of a real App with 6 cookie spellings; after every step every token ever issued is probed, after every change of the user set every password x uid. distinct = distinct operation traces; every sequence is non-trivial (>= 10 operations)", None, &["expiry is logical (lifetime 0 vs 3600 seconds), no sleeping: the one-second clock granularity is never on the decision boundary", "token uniqueness is checked across all sequences of a shard"]);
+    total.write(out, "model-based operation sequences (10..60 operations, 1..5 users, with/without pepper, default lifetime and refresh lifetime in {0 = expired at birth, 3600 = valid for the run}) over create_user, remove_user, verify (right / wrong / other user's password incl. 64..300-byte passwords that differ only in their last byte, unknown and removed uid), create_session, create_session_with_lifetime(0 | 3600), refresh_session, invalidate_session, invalidate_user_session, get_uid_by_token (current, superseded, invalidated, expired, malformed tokens) and requests to a with_auth_route route of a real App with 9 cookie spellings; after every step every token ever issued is probed, after every change of the user set every password x uid. distinct = distinct operation traces; every sequence is non-trivial (>= 10 operations)", None, &["expiry is logical (lifetime 0 vs 3600 seconds), no sleeping: the one-second clock granularity is never on the decision boundary", "token uniqueness is checked across all sequences of a shard"]);
 }
